@@ -148,6 +148,9 @@ pub enum JoinAlgo {
     BcSortMerge,
     /// `KeyedStream::join / join_outer` after `group_by` on both sides (inner and outer only)
     Keyed,
+    /// `KeyedStream::join` of a two-phase aggregation (`group_by_count` of the left side) with the
+    /// `group_by` of the right side, without reshuffling: both families must co-partition (inner)
+    KeyedAfterAgg,
 }
 
 #[derive(Clone, Copy, Debug, PartialEq, Eq, Hash, Serialize, Deserialize)]
